@@ -791,6 +791,8 @@ R9_RULES = [
             "(match $$e.as_mut() { Some($x) => $x.pop_front(), None => None })"),
     ("R9h", "for $x in $$e . values ( ) {",
             "let mut r9_n: usize = 0; let r9_len: usize = $$e.len(); while r9_n < r9_len { let $x = $$e.nth_value_mut(r9_n); r9_n = r9_n + 1;"),
+    ("R9k", "for $x in $$e . iter_mut ( ) {",
+            "let mut r9_n: usize = 0; while r9_n < $$e.len() { let $x = &mut $$e[r9_n]; r9_n = r9_n + 1;"),
     ("R9j", "for $x in $e {",
             "let mut r9_q = $e; while r9_q.len() > 0 { let $x = vec_take_first(&mut r9_q);"),
     ("R9f", "for $x in $$e . iter ( ) {",
